@@ -103,13 +103,6 @@ instance (s : State) : Decidable (OwnerCSpecSound B s) := by unfold OwnerCSpecSo
 instance (s : State) : Decidable (OwnerCSpecComplete B s) := by unfold OwnerCSpecComplete; infer_instance
 instance (s : State) : Decidable (OwnerCSpecExact B s) := by unfold OwnerCSpecExact; infer_instance
 
-/-- the (account, specification) pairs the stored specifications name that the by-owner lookups
-do NOT list (the driver tells apart which of them a known defect explains) -/
-def missingOwnerScopeSpec (s : State) : List (Addr × UUID) :=
-  (s.scopeSpecs.flatMap fun sp => sp.owners.map fun a => (B a, sp.id)).filter (fun p => p ∉ s.idxAddrScopeSpec)
-def missingOwnerCSpec (s : State) : List (Addr × UUID) :=
-  (s.contractSpecs.flatMap fun sp => sp.owners.map fun a => (B a, sp.id)).filter (fun p => p ∉ s.idxAddrCSpec)
-
 /-- value-owner coins and net asset values exist only for existing scopes -/
 def ValueOwnersHaveScope (s : State) : Prop := ∀ p ∈ s.valueOwners, ∃ sc ∈ s.scopes, sc.id = p.1
 def NavsHaveScope (s : State) : Prop := ∀ p ∈ s.navs, ∃ sc ∈ s.scopes, sc.id = p.1
@@ -129,9 +122,7 @@ instance (s : State) : Decidable (KeysUnique s) := by unfold KeysUnique; infer_i
 
 /-- The part of the invariant that does not mention "every session has a scope" (it also held
 of the code before the repair ab8bb51a7; `UsedSessionsHaveScope` follows from the three record
-clauses).  Of the two by-owner lookups of SPECIFICATIONS only "nothing stale" is part of it: the
-code can lose an entry of a specification owner that is re-spelled (finding
-C14-spec-owner-respelling-drops-index-entry); "nothing missing" is `OwnerComplete`. -/
+clauses). -/
 structure Inv (s : State) : Prop where
   keys : KeysUnique s
   recSession : RecordsHaveSession s
@@ -139,27 +130,15 @@ structure Inv (s : State) : Prop where
   recInScope : RecordsInSessionScope s
   addrScope : AddrScopeExact B s
   specScope : SpecScopeExact s
-  ownerScopeSpec : OwnerScopeSpecSound B s
+  ownerScopeSpec : OwnerScopeSpecExact B s
   cspecScopeSpec : CSpecScopeSpecExact s
-  ownerCSpec : OwnerCSpecSound B s
+  ownerCSpec : OwnerCSpecExact B s
   voScope : ValueOwnersHaveScope s
   navScope : NavsHaveScope s
 
-/-- The referential-integrity and lookup claim that holds after EVERY history of the current code
-(`PvProofs.C14.refInv_reachable`): everything the property says except "nothing missing" for the
-two by-owner lookups of specifications. -/
+/-- The property's full referential-integrity and lookup claim: holds after every history of the
+current code (`PvProofs.C14.refInv_reachable`). -/
 def FullInv (s : State) : Prop := Inv B s ∧ SessionsHaveScope s
-
-/-- "Nothing missing" for the two by-owner lookups of specifications, together with what makes it
-inductive: every owner text of a stored specification satisfies `P`.  It is preserved by
-histories whose specification-owner texts all satisfy a `P` on which `B` is injective (one
-spelling per account; `PvProofs.C14.ownerComplete_run_partial`), and NOT in general
-(`PvProofs.C14.contractSpecsForOwner_incomplete_witness`). -/
-structure OwnerComplete (P : Addr → Prop) (s : State) : Prop where
-  scopeSpecOwners : ∀ sp ∈ s.scopeSpecs, ∀ a ∈ sp.owners, P a
-  contractSpecOwners : ∀ sp ∈ s.contractSpecs, ∀ a ∈ sp.owners, P a
-  ownerScopeSpec : OwnerScopeSpecComplete B s
-  ownerCSpec : OwnerCSpecComplete B s
 
 /-! ### "deleting a scope removes all of its sessions, records, lookups and net asset values" -/
 
@@ -180,12 +159,6 @@ instance (s : State) (id : UUID) : Decidable (ScopeGone s id) := by unfold Scope
 /-- sessions of a scope that does not exist -/
 def orphanSessions (s : State) : List SessionId :=
   (s.sessions.filter (fun x => !khas (·.id) s.scopes x.id.scope)).map (·.id)
-
-/-- the owner TEXTS a message writes into a specification -/
-def Op.specOwnerTexts : Op → List Addr
-  | .writeScopeSpec sp => sp.owners
-  | .writeContractSpec sp => sp.owners
-  | _ => []
 
 /-- the names of the clauses of the property's invariant (all lookups EXACT) that fail on a
 (dumped) state, in a fixed order -/
